@@ -306,9 +306,12 @@ int main(int argc, char** argv) {
   std::string out;
   int tier = 0;
   double deadline = 0;
+  std::string replay;
   for (int i = 1; i < argc; ++i) {
     const std::string a = argv[i];
-    if (a == "--out" && i + 1 < argc) {
+    if (a == "--replay" && i + 1 < argc) {
+      replay = argv[++i];
+    } else if (a == "--out" && i + 1 < argc) {
       out = argv[++i];
     } else if (a == "--tier" && i + 1 < argc) {
       tier = std::string{argv[++i]} == "thorough" ? 1 : 0;
@@ -317,6 +320,49 @@ int main(int argc, char** argv) {
     } else if (i + 1 < argc) {
       ++i;
     }
+  }
+  if (!replay.empty()) {
+    // runs the one sequence of a replay file (field "program": "under=U,wrap=W ops=OPS") without any enumeration
+    std::string text;
+    if (FILE* f = std::fopen(replay.c_str(), "r")) {
+      char buf[4096];
+      std::size_t n;
+      while ((n = std::fread(buf, 1, sizeof(buf), f)) > 0) {
+        text.append(buf, n);
+      }
+      std::fclose(f);
+    }
+    const auto pu = text.find("under=");
+    const auto pw = text.find(",wrap=", pu);
+    const auto po = text.find(" ops=", pw);
+    if (pu == std::string::npos || pw == std::string::npos || po == std::string::npos) {
+      std::fprintf(stderr, "no program in %s\n", replay.c_str());
+      return 2;
+    }
+    const std::string u = text.substr(pu + 6, pw - pu - 6);
+    const std::string w = text.substr(pw + 6, po - pw - 6);
+    const std::string ops = text.substr(po + 5, text.find_first_of("\"\\ ,}", po + 5) - po - 5);
+    int under = -1, wrap = -1;
+    for (int i = 0; i < 4; ++i) {
+      under = u == kUnder[i] ? i : under;
+    }
+    for (int i = 0; i < 3; ++i) {
+      wrap = w == kWrap[i] ? i : wrap;
+    }
+    if (under < 0 || wrap < 0) {
+      std::fprintf(stderr, "unknown configuration under=%s wrap=%s\n", u.c_str(), w.c_str());
+      return 2;
+    }
+    static Stats one;
+    gS = &one;
+    std::printf("replay harness=exec_seq under=%s wrap=%s ops=%s\n", u.c_str(), w.c_str(), ops.c_str());
+    std::fflush(stdout);
+    RunSequence(under, wrap, ops);
+    for (int i = 0; i < one.nfind; ++i) {
+      std::printf("FAILS %s\n", one.findings[i]);
+    }
+    std::printf(one.nfind != 0 ? "RESULT violation\n" : "RESULT clean\n");
+    return one.nfind != 0 ? 1 : 0;
   }
   // one child per configuration, all at once: a crash is recorded with the sequence in flight and ends only that configuration
   constexpr int kConfigs = 12;
